@@ -11,6 +11,8 @@ Definition cm_get (cm : cmap) (d : nat) : list Z :=
 (* candidates[deme].individuals = ks   (keys of a dict are unique; the order of the dict is kept) *)
 Definition cm_set (cm : cmap) (d : nat) (ks : list Z) : cmap :=
   map (fun pk => if Nat.eqb (fst pk) d then (fst pk, ks) else pk) cm.
+(* candidates[deme] = DemeCandidates(...) for a deme that is not a key yet: python dicts keep insertion order *)
+Definition cm_add (cm : cmap) (d : nat) (ks : list Z) : cmap := cm ++ [(d, ks)].
 (* candidates.keys() *)
 Definition cm_keys (cm : cmap) : list nat := map fst cm.
 (* sorted(individuals, reverse=True): best first in the problem's direction *)
